@@ -22,7 +22,9 @@ pub fn val(k: usize, v: usize) -> Value {
         ("b", 1) => json!(true),
         ("b", _) => json!([1, "x"]),
         (_, 1) => json!("2999-01-01T00:00:00Z"),
-        (_, _) => json!("2998-06-15T12:00:00+05:30"),
+        (_, 2) => json!("2998-06-15T12:00:00+05:30"),
+        // value #3 (exp only): an instant in the past
+        (_, _) => json!("1999-12-31T23:59:59Z"),
     }
 }
 
@@ -134,6 +136,32 @@ pub fn build_pool(proto: Proto, nkeys: usize) -> Pool {
     let nullp = json!({"a": null, "data": "x"});
     if let Out::Ok(t) = adapter::core_issue(proto, &k0.sk, &seed, &nullp.to_string(), None, None) {
         tokens.push(PoolToken { label: "a=null".into(), token: t, payload: Some(nullp), key: 0 });
+    }
+    // authentic tokens whose payload is valid JSON but not an object: every claim is absent
+    for (label, text) in [("payload=[]", "[]"), ("payload=\"text\"", "\"text\""), ("payload=42", "42"), ("payload=null", "null"), ("payload=[{a:v1}]", "[{\"a\":\"v1 \u{00e9}\"}]")] {
+        if let Out::Ok(t) = adapter::core_issue(proto, &k0.sk, &seed, text, None, None) {
+            tokens.push(PoolToken { label: label.into(), token: t, payload: Some(serde_json::from_str(text).unwrap()), key: 0 });
+        }
+    }
+    // authentic tokens that only the built-in default validators object to: expired, not yet valid
+    if nkeys >= 2 {
+        let mut expired = serde_json::Map::new();
+        let mut early = serde_json::Map::new();
+        for k in 0..nkeys {
+            if KEYS[k] == "exp" {
+                expired.insert("exp".into(), val(k, 3));
+                early.insert("exp".into(), val(k, 1));
+            } else {
+                expired.insert(KEYS[k].to_string(), val(k, 1));
+                early.insert(KEYS[k].to_string(), val(k, 1));
+            }
+        }
+        early.insert("nbf".into(), json!("2997-01-01T00:00:00Z"));
+        for (label, p) in [("exp=past(v3),others=v1", Value::Object(expired)), ("nbf=future,others=v1", Value::Object(early))] {
+            if let Out::Ok(t) = adapter::core_issue(proto, &k0.sk, &seed, &p.to_string(), None, None) {
+                tokens.push(PoolToken { label: label.into(), token: t, payload: Some(p), key: 0 });
+            }
+        }
     }
     // unauthentic: all claims at v1 so that every expectation / validator *would* be satisfied
     let mut full = serde_json::Map::new();
@@ -286,7 +314,7 @@ pub fn replay_and_judge(proto: Proto, flavor: Flavor, nkeys: usize, path: &[Op],
                     return v;
                 };
                 PARSES.fetch_add(1, Ordering::Relaxed);
-                judge_parse(ks_then, nkeys, &pool.tokens[*ti], out, calls, &mut v);
+                judge_parse(ks_then, nkeys, flavor == Flavor::PreludeDefault, &pool.tokens[*ti], out, calls, &mut v);
                 if *final_sweep {
                     // history independence: the first token parsed again after all the others gives the same outcome
                     let summary = (out.is_ok(), out.err().cloned());
@@ -303,7 +331,7 @@ pub fn replay_and_judge(proto: Proto, flavor: Flavor, nkeys: usize, path: &[Op],
     v
 }
 
-fn judge_parse(ks: &[KeyState; 3], nkeys: usize, t: &PoolToken, out: &Out<Value>, calls: &[ValidatorCall], v: &mut Verdicts) {
+fn judge_parse(ks: &[KeyState; 3], nkeys: usize, default_flavor: bool, t: &PoolToken, out: &Out<Value>, calls: &[ValidatorCall], v: &mut Verdicts) {
     let c15 = |v: &mut Verdicts, k: &str, w: String| {
         if v.c15.is_none() {
             v.c15 = Some((k.to_string(), format!("token [{}]: {}", t.label, w)));
@@ -354,8 +382,22 @@ fn judge_parse(ks: &[KeyState; 3], nkeys: usize, t: &PoolToken, out: &Out<Value>
                 rejecting.push(k);
             }
         }
-        if ks[k].builtin && !actual.is_null() && !actual.is_string() {
-            builtin_rejects = true;
+        if ks[k].builtin && !actual.is_null() {
+            // the built-in exp validator: not a string, or not in the future -> rejects (frozen clock: 2026)
+            match actual.as_str().and_then(crate::rfc3339::parse) {
+                Some((_, t)) if t > adapter::default_t0().unix_timestamp_nanos() => {}
+                _ => builtin_rejects = true,
+            }
+        }
+    }
+    // the built-in nbf validator of PasetoParser::default() is never replaced by this model's actions
+    if default_flavor {
+        if let Some(n) = payload.get("nbf") {
+            match n.as_str().and_then(crate::rfc3339::parse) {
+                Some((_, t)) if t < adapter::default_t0().unix_timestamp_nanos() => {}
+                _ if n.is_null() => {}
+                _ => builtin_rejects = true,
+            }
         }
     }
     // ---- C16: the call log
@@ -381,6 +423,10 @@ fn judge_parse(ks: &[KeyState; 3], nkeys: usize, t: &PoolToken, out: &Out<Value>
             if !unmet.is_empty() {
                 c15(v, "accepted-despite-unmet-expectation", format!("accepted although expected claim(s) {:?} are {} in the payload {}", unmet.iter().map(|(k, _)| KEYS[*k]).collect::<Vec<_>>(), if unmet[0].1 { "missing" } else { "different" }, payload));
             }
+            if builtin_rejects {
+                c16(v, "accepted-despite-default-validator", format!("accepted although the built-in default exp / nbf validator must reject the payload {}", payload));
+                c15(v, "accepted-despite-default-validator", format!("accepted although the built-in default exp / nbf validator must reject the payload {}", payload));
+            }
             if !rejecting.is_empty() {
                 c16(v, "accepted-despite-rejecting-validator", format!("accepted although the validator for {:?} rejects the value", rejecting.iter().map(|k| KEYS[*k]).collect::<Vec<_>>()));
             }
@@ -401,6 +447,9 @@ fn judge_parse(ks: &[KeyState; 3], nkeys: usize, t: &PoolToken, out: &Out<Value>
                     c16(v, "rejected-although-all-accept", w);
                 }
             } else if !e.is_claim() {
+                if builtin_rejects && rejecting.is_empty() && unmet.is_empty() {
+                    c16(v, "non-claim-error-for-default-validator", format!("the built-in default validator rejects but the error is {:?}, not a claim error", e));
+                }
                 if !rejecting.is_empty() && unmet.is_empty() {
                     c16(v, "non-claim-error-for-rejecting-validator", format!("a validator rejects but the error is {:?}, not a claim error", e));
                 }
@@ -451,6 +500,9 @@ impl ParserModel {
         for k in 0..self.nkeys {
             a.push(Op::Check(k, 1));
             a.push(Op::Check(k, 2));
+            if KEYS[k] == "exp" {
+                a.push(Op::Check(k, 3)); // the exact (past) exp the application issued
+            }
             for kind in [Kind::Accept, Kind::Reject, Kind::ValueDep] {
                 a.push(Op::Validate(k, kind));
             }
